@@ -395,6 +395,42 @@ def history_stream(ctx, profile, seed, nhist, length, fp, shards=16):
     return triples, None
 
 
+def run_driver_sharded(ctx, ops, out, shards=16):
+    """run the model driver over a long operation file in parallel: the file is cut at `reset` lines
+    (every history starts with one and the observation index restarts there), the pieces are run by
+    separate driver processes and their outputs concatenated in order"""
+    hists = []
+    for ln in open(ops):
+        if ln.startswith('reset') or not hists:
+            hists.append([])
+        hists[-1].append(ln)
+    n = max(1, min(shards, len(hists)))
+    per = (len(hists) + n - 1) // n
+    procs = []
+    for i in range(n):
+        part = hists[i * per:(i + 1) * per]
+        if not part:
+            continue
+        pf = '%s.part%d' % (ops, i)
+        with open(pf, 'w') as f:
+            for h in part:
+                f.writelines(h)
+        of = open('%s.part%d' % (out, i), 'w')
+        procs.append((subprocess.Popen([ctx.driver_bin, 'run', pf], stdout=of, stderr=subprocess.PIPE, text=True), of, pf))
+    err = None
+    with open(out, 'w') as fo:
+        for p, of, pf in procs:
+            _, e = p.communicate(timeout=3600)
+            of.close()
+            if p.returncode != 0 and err is None:
+                err = e or 'driver exit %d' % p.returncode
+            with open(of.name) as fi:
+                shutil.copyfileobj(fi, fo)
+            os.unlink(of.name)
+            os.unlink(pf)
+    return err
+
+
 def grid_stream(ctx, fp):
     """The exhaustive authorisation grid (message variant x sender class x world kind)."""
     key = '%s-%s-grid' % (fp, verif_fingerprint(ctx))
@@ -406,10 +442,9 @@ def grid_stream(ctx, fp):
         rc, out = run([ctx.harness_bin, 'grid', ops, robs], timeout=3600)
         if rc != 0:
             return None, 'harness grid failed: %s' % out[-400:]
-        with open(mobs, 'w') as f:
-            p = subprocess.run([ctx.driver_bin, 'run', ops], stdout=f, stderr=subprocess.PIPE, text=True, timeout=3600)
-        if p.returncode != 0:
-            return None, 'driver run grid failed: %s' % (p.stderr or '')[-400:]
+        err = run_driver_sharded(ctx, ops, mobs)
+        if err:
+            return None, 'driver run grid failed: %s' % err[-400:]
         open(os.path.join(d, 'DONE'), 'w').write('ok')
     return (ops, robs, mobs), None
 
